@@ -342,6 +342,7 @@ def run(tier: str, only=None) -> core.Result:
                 cfgs.append({"seq": list(combo), "mode": mode})
     out = explorer.explore(RUN, cfgs, fidelity=True)
     sched.absorb(res, f"sequences-len<={maxlen}", RUN, out, cfgs)
+    sched.debug_pass(res, "sequences", RUN, [c for c in cfgs if len(c["seq"]) <= 2], every=1)
     depth = 2 if tier == "quick" else 3
     pay = _payloads(depth)
     cfgs2 = [{"payload": i, "shape": s, "depth": depth, "mode": "burst"} for i in range(len(pay))
